@@ -543,6 +543,17 @@ impl InterfaceInner {
         let src_addr = ipv6_repr.dst_addr;
         let dst_addr = ipv6_repr.src_addr;
 
+        // Per RFC 4443 §2.4 (e.3) Destination Unreachable and Time Exceeded messages are
+        // never sent in response to a packet destined to a multicast address.
+        if src_addr.is_multicast()
+            && matches!(
+                icmp_repr,
+                Icmpv6Repr::DstUnreachable { .. } | Icmpv6Repr::TimeExceeded { .. }
+            )
+        {
+            return None;
+        }
+
         let src_addr = if src_addr.x_is_unicast() {
             src_addr
         } else {
